@@ -45,6 +45,7 @@ func checkC02(ctx *Ctx, r *Report) {
 	c09GoEnvelopeConstants(ctx, r)
 	c14GoConverterBuffer(ctx, r)
 	c11FifthRound(ctx, r)
+	c02GoConstructorNames(ctx, r)
 	c02RuntimeGuard(ctx, r)
 	c02SortedSearch(ctx, r)
 	c02SortedSearchSelfTest(ctx, r)
@@ -3063,4 +3064,77 @@ func c02GoFieldNamesNotMethods(ctx *Ctx, r *Report) {
 	}
 	r.Count("methods generated on Go structs", len(names))
 	r.Floor("methods generated on Go structs", 5)
+}
+
+// c02GoConstructorNames: types and functions share one namespace in a Go package, and every struct gets a function
+// `New<Name>`: the objects `Pet` and `NewPet` (the OpenAPI petstore) give `type NewPet struct` and `func NewPet() *Pet`.
+// No formatter can report that; generateSchema calls — and returns the error of — a function that looks the
+// constructor names up among the object names.
+func c02GoConstructorNames(ctx *Ctx, r *Report) {
+	p := ctx.Pkg("internal/jennies/golang")
+	fn := ctx.LookupMethod("internal/jennies/golang", "RawTypes", "generateSchema")
+	fd, _ := ctx.DeclOf(fn)
+	if p == nil || fd == nil {
+		r.Undecided("anchor lost: golang.RawTypes.generateSchema")
+		return
+	}
+	info := p.TypesInfo
+	checked := false
+	ast.Inspect(fd.Body, func(m ast.Node) bool {
+		is, ok := m.(*ast.IfStmt)
+		if !ok || is.Init == nil {
+			return true
+		}
+		as, ok := is.Init.(*ast.AssignStmt)
+		if !ok || len(as.Rhs) != 1 {
+			return true
+		}
+		c, ok := ast.Unparen(as.Rhs[0]).(*ast.CallExpr)
+		if !ok {
+			return true
+		}
+		f := callee(info, c)
+		if f == nil || f.Pkg() != p.Types {
+			return true
+		}
+		// the error is returned
+		returns := false
+		for _, st := range is.Body.List {
+			if rs, ok := st.(*ast.ReturnStmt); ok && len(rs.Results) > 0 {
+				returns = true
+			}
+		}
+		hfd, _ := ctx.DeclOf(f)
+		if !returns || hfd == nil || hfd.Body == nil {
+			return true
+		}
+		// the helper builds `"New" + …` and looks it up in a map
+		built := map[types.Object]bool{}
+		ast.Inspect(hfd.Body, func(k ast.Node) bool {
+			if a2, ok := k.(*ast.AssignStmt); ok && len(a2.Lhs) == 1 && len(a2.Rhs) == 1 {
+				if be, ok := ast.Unparen(a2.Rhs[0]).(*ast.BinaryExpr); ok && be.Op == token.ADD {
+					if tv, ok := info.Types[be.X]; ok && tv.Value != nil && tv.Value.Kind() == constant.String && constant.StringVal(tv.Value) == "New" {
+						if id, ok := a2.Lhs[0].(*ast.Ident); ok {
+							built[objOf(info, id)] = true
+						}
+					}
+				}
+			}
+			return true
+		})
+		ast.Inspect(hfd.Body, func(k ast.Node) bool {
+			if ix, ok := k.(*ast.IndexExpr); ok {
+				if _, isMap := info.TypeOf(ix.X).Underlying().(*types.Map); isMap {
+					if id, ok := ast.Unparen(ix.Index).(*ast.Ident); ok && built[objOf(info, id)] {
+						checked = true
+					}
+				}
+			}
+			return true
+		})
+		return true
+	})
+	r.Count("namespace checks of the Go types jenny", 1)
+	r.Check(checked, "skeleton/go-constructor-names-checked", "golang.RawTypes.generateSchema checks the names of the constructors", fd.Pos(), "the run fails when `New<Name>` is the name of another object",
+		"generateSchema writes `func New<Name>()` for every struct without looking at the other objects: `Pet` and `NewPet` give `type NewPet struct` and `func NewPet() *Pet` — NewPet redeclared in this block, a successful run and a package that does not compile")
 }
